@@ -16,9 +16,9 @@ import (
 )
 
 type txLog struct {
-	mu   sync.Mutex
-	t0   time.Time
-	evs  []string // "cb@<dur>:<data>", "done@<dur>:<err>", "finally@<dur>"
+	mu  sync.Mutex
+	t0  time.Time
+	evs []string // "cb@<dur>:<data>", "done@<dur>:<err>", "finally@<dur>"
 }
 
 func (l *txLog) add(format string, a ...interface{}) {
@@ -26,7 +26,11 @@ func (l *txLog) add(format string, a ...interface{}) {
 	l.evs = append(l.evs, fmt.Sprintf("%s@%v", fmt.Sprintf(format, a...), time.Since(l.t0)))
 	l.mu.Unlock()
 }
-func (l *txLog) snapshot() []string { l.mu.Lock(); defer l.mu.Unlock(); return append([]string(nil), l.evs...) }
+func (l *txLog) snapshot() []string {
+	l.mu.Lock()
+	defer l.mu.Unlock()
+	return append([]string(nil), l.evs...)
+}
 
 var errCustom = errors.New("custom failure")
 
@@ -52,7 +56,7 @@ func TestC19(t *testing.T) {
 			// blocked on a sync.Mutex keeps a synctest clock from advancing. The verdict uses counts and a
 			// lower time bound only (a timer never fires early), never an upper wall-clock bound.
 			rd := []time.Duration{40 * time.Millisecond, 60 * time.Millisecond, 25 * time.Millisecond}[(k/4)%3]
-			slowAt := 1 + (k/12)%int(rc)                      // which callback is slow
+			slowAt := 1 + (k/12)%int(rc)                       // which callback is slow
 			busy := rd * time.Duration(40+rng.Intn(30)) / 100  // how long it takes
 			off := busy * time.Duration(30+rng.Intn(30)) / 100 // progress arrives this long after the callback started
 			c.Desc = fmt.Sprintf("slow callback rc=%d rd=%v slow=#%d busy=%v progress at +%v", rc, rd, slowAt, busy, off)
@@ -132,7 +136,15 @@ func TestC19(t *testing.T) {
 				ctx, cancel := context.WithCancel(context.Background())
 				defer cancel()
 				tx := transactions.NewTimedTransaction(ctx, timeout, func() { log.add("finally") })
-				go func() { <-tx.Done(); log.add("done:%v", tx.Err()) }()
+				stop := make(chan struct{})
+				defer close(stop) // a transaction that never completes must not keep the bubble from ending: it shows as a missing event
+				go func() {
+					select {
+					case <-tx.Done():
+						log.add("done:%v", tx.Err())
+					case <-stop:
+					}
+				}()
 				if mode != 0 {
 					time.Sleep(at)
 					if mode == 1 {
@@ -263,7 +275,15 @@ func TestC19(t *testing.T) {
 				}
 				return nil
 			}, func() { log.add("finally") })
-			go func() { <-tx.Done(); log.add("done:%v", tx.Err()) }()
+			stop := make(chan struct{})
+			defer close(stop) // a transaction that never completes must not keep the bubble from ending: it shows as a missing event
+			go func() {
+				select {
+				case <-tx.Done():
+					log.add("done:%v", tx.Err())
+				case <-stop:
+				}
+			}()
 			tx.Proceed("s", 0)
 			cur := time.Duration(0)
 			d := 0
